@@ -106,6 +106,11 @@ _Q_PARAM = [
     ['Planar3DCode', [2, 2, 2], 2, {'max_sweep_factor': 1}, 1],
     ['Toric3DCode', [3, 3, 3], 2, {'max_sweep_factor': 1}, 3],
     ['Planar3DCode', [3, 3, 3], 2, {'max_sweep_factor': 1}, 2],
+    # non-cubic lattices on the parameter axis (moved from the thorough list: a parameter handled per axis
+    # must not be right for cubes only)
+    ['RotatedPlanar3DCode', [4, 3, 2], 2, {'max_rounds': 1}, 4],
+    ['Toric3DCode', [2, 3, 4], 2, {'max_sweep_factor': 1}, 4],
+    ['Planar3DCode', [2, 3, 4], 2, {'max_sweep_factor': 1}, 2],
 ]
 _T_PARAM = _Q_PARAM + [
     ['RotatedPlanar3DCode', [2, 2, 2], 3, {'max_rounds': 1}, 1],
@@ -114,7 +119,6 @@ _T_PARAM = _Q_PARAM + [
     ['RotatedPlanar3DCode', [3, 3, 3], 2, {'max_rounds': 3}, 4],
     ['RotatedPlanar3DCode', [3, 3, 3], 3, {'max_rounds': 1}, 16],
     ['RotatedPlanar3DCode', [3, 3, 3], 3, {'max_rounds': 2}, 32],
-    ['RotatedPlanar3DCode', [4, 3, 2], 2, {'max_rounds': 1}, 4],
     ['RotatedPlanar3DCode', [4, 3, 2], 2, {'max_rounds': 2}, 8],
     ['Toric3DCode', [2, 2, 2], 3, {'max_sweep_factor': 1}, 2],
     ['Toric3DCode', [2, 2, 2], 3, {'max_sweep_factor': 2}, 4],
@@ -122,8 +126,6 @@ _T_PARAM = _Q_PARAM + [
     ['Planar3DCode', [2, 2, 2], 3, {'max_sweep_factor': 2}, 1],
     ['Toric3DCode', [3, 3, 3], 2, {'max_sweep_factor': 2}, 4],
     ['Planar3DCode', [3, 3, 3], 2, {'max_sweep_factor': 2}, 4],
-    ['Toric3DCode', [2, 3, 4], 2, {'max_sweep_factor': 1}, 4],
-    ['Planar3DCode', [2, 3, 4], 2, {'max_sweep_factor': 1}, 2],
 ]
 BOUNDS = {
     'quick': {'geometry_max_n': 200, 'geometry_l_max': 6, 'automaton': [a[:3] for a in _Q_AUTO],
